@@ -126,7 +126,7 @@ def evaluate(c, d, cont, spec, label=""):
     classes = [f"n={n}", f"kind={spec['kind']}"]
     if exact_ties:
         classes.append("exact-tie-at-cut")
-    near = [b for b in BOUNDARIES if abs((T + 1) - b) <= 12]
+    near = [b for b in BOUNDARIES + [40000, 50000, 50625] if abs((T + 1) - b) <= 12]
     if near:
         classes.append(f"T+1-within-12-of-{near[0]}")
     if T > 25000:
@@ -144,16 +144,16 @@ def small_cases(draw):
 
 
 @st.composite
-def boundary_cases(draw, uniform=False):
+def boundary_cases(draw, uniform=False, deep=False):
     n = draw(st.sampled_from([2, 2, 3]))
     if uniform:
-        target = draw(st.integers(9000, 36000))
+        target = draw(st.integers(9000, 60000 if deep else 36000))
     else:
-        b = draw(st.sampled_from(BOUNDARIES))
+        b = draw(st.sampled_from(BOUNDARIES + ([40000, 50000, 50625] if deep else [])))   # deep: the next growth step of the buffers
         target = b - 1 + draw(st.one_of(st.sampled_from([0, 0, -1, 1]), st.integers(-12, 12)))   # T + 1 (with the all-empty tuple) hits b +- 12, often exactly
     # choose block sizes with prod(k+1) - 1 <= target, remainder as far units (bounded)
     if n == 2:
-        a0 = draw(st.integers(90, 180))
+        a0 = draw(st.integers(90, 180)) if target < 36000 else draw(st.integers(150, 240))
         b0 = max(1, min(400, (target + 1) // (a0 + 1) - 1))
         block = [a0, b0]
     else:
@@ -248,8 +248,8 @@ def subchecks(tier):
             examples={"quick": 100, "thorough": 1500}, shards={"quick": 4, "thorough": 16}),
         Sub(name="ties", check=check, strategy=tie_cases(),
             examples={"quick": 150, "thorough": 2000}, shards={"quick": 4, "thorough": 16}),
-        Sub(name="boundary", check=check, strategy=boundary_cases(),
+        Sub(name="boundary", check=check, strategy=boundary_cases(deep=(tier == "thorough")),
             examples={"quick": 30, "thorough": 200}, shards={"quick": 8, "thorough": 16}),
-        Sub(name="large-uniform", check=check, strategy=boundary_cases(uniform=True),
+        Sub(name="large-uniform", check=check, strategy=boundary_cases(uniform=True, deep=(tier == "thorough")),
             examples={"quick": 12, "thorough": 120}, shards={"quick": 8, "thorough": 16}),
     ]
